@@ -117,6 +117,9 @@ def run(chk):
     proved = chk.prove('props/C16.v')
     with vlib.WorkDir('c16') as wd:
         _run(chk, wd, proved)
+        # the streaming half (/logtail, /mainlogtail, chunked coding): coq/props/C16b.v, props/c16b.py
+        import c16b
+        c16b.run_part(chk, wd)
 
 
 def _classify_utf8(b):
